@@ -74,7 +74,7 @@ func (w *world) state() []tr.M {
 
 func shape(h *sam.Header) string {
 	var b bytes.Buffer
-	fmt.Fprintf(&b, "V=%s SO=%v GO=%v;", h.Version, h.SortOrder, h.GroupOrder)
+	fmt.Fprintf(&b, "V=%s SO=%d GO=%d;", h.Version, int(h.SortOrder), int(h.GroupOrder)) // numeric: GroupUnspecified and GroupNone both print "none"
 	for _, r := range h.Refs() {
 		fmt.Fprintf(&b, "R(%d,%s,%d,%x,%s,%s,%s);", r.ID(), r.Name(), r.Len(), r.MD5(), r.AssemblyID(), r.Species(), r.URI())
 	}
